@@ -1,6 +1,60 @@
 import WhVerif.Util.Proto
+import WhVerif.Model.C13
 namespace WhVerif.Driver.C13
-open Lean WhVerif.Proto
-/-- ops of property C13 are named `c13.<name>`; return `none` for ops that are not ours -/
-def handle (_op : String) (_j : Json) : Option Json := none
+open Lean WhVerif.Proto WhVerif.C13
+
+def optNat? (j : Json) : Option (Option Nat) :=
+  if j.isNull then some none else (asNat? j).map some
+
+def parseGT (j : Json) : Option (Option GT) :=
+  if j.isNull then some none else do
+    let a ← (← getList? j "a").mapM optNat?
+    let p ← getBool? j "p"
+    pure (some { alleles := a, phased := p })
+
+def parseKV (j : Json) : Option (String × String) := do
+  match ← asArr? j with
+  | [k, v] => pure (← asStr? k, ← asStr? v)
+  | _ => none
+
+def parseCall (j : Json) : Option Call := do
+  let g ← parseGT (← getObj? j "gt")
+  let f ← (← getList? j "f").mapM parseKV
+  pure { gt := g, fields := f }
+
+def parseRecord (j : Json) : Option Record := do
+  let fx ← (← getList? j "fixed").mapM asStr?
+  let cs ← (← getList? j "calls").mapM parseCall
+  pure { fixed := fx, calls := cs }
+
+def gtJson : Option GT → Json
+  | none => Json.null
+  | some g => Json.mkObj [("a", ofList (fun a => match a with | some n => ofNat n | none => Json.null) g.alleles),
+                          ("p", Json.bool g.phased)]
+
+def callJson (c : Call) : Json :=
+  Json.mkObj [("gt", gtJson c.gt),
+              ("f", ofList (fun kv => Json.arr #[Json.str kv.1, Json.str kv.2]) c.fields)]
+
+def recordJson (r : Record) : Json :=
+  Json.mkObj [("fixed", ofList Json.str r.fixed), ("calls", ofList callJson r.calls)]
+
+def errJson : Err → Json
+  | .indexError => Json.str "IndexError"
+  | .typeError => Json.str "TypeError"
+  | .keyError => Json.str "KeyError"
+
+def exceptJson : Except Err (List Record) → Json
+  | .ok v => Json.mkObj [("ok", ofList recordJson v)]
+  | .error e => Json.mkObj [("err", errJson e)]
+
+/-- `c13.unphase {records}` → `{spec: [...], fix: {ok|err}, cur: {ok|err}}` -/
+def handle (op : String) (j : Json) : Option Json :=
+  if op == "c13.unphase" then
+    match (getList? j "records").bind (·.mapM parseRecord) with
+    | some v => some (Json.mkObj [("spec", ofList recordJson (unphase v)),
+                                  ("fix", exceptJson (unphaseFix v)),
+                                  ("cur", exceptJson (unphaseCur v))])
+    | none => some badInput
+  else none
 end WhVerif.Driver.C13
